@@ -192,6 +192,9 @@ def cfg_list():
     for kappa, theta, sigma, v0, dt, T in [(1.0, 0.04, 0.2, 0.04, 1 / 250, 21), (2.0, 0.09, 0.3, 0.02, 1 / 52, 27), (1.0, 0.04, 0.40, 0.02, 0.25, 9), (1.0, 0.04, 0.44, 0.02, 0.25, 9),
                                            (1.0, 0.04, 0.47, 0.02, 0.25, 9), (1.0, 0.04, 0.50, 0.02, 0.25, 9), (1.0, 0.04, 0.6, 0.02, 0.25, 9), (0.5, 0.02, 1.0, 0.01, 1 / 12, 13), (3.0, 0.05, 0.8, 0.1, 1 / 52, 27), (0.3, 0.04, 1.5, 0.04, 0.1, 11)]:
         C.append(("cir", dict(kappa=kappa, theta=theta, sigma=sigma, v0=v0, dt=dt, T=T)))
+    # parameters and initial state handed over as tensors that the caller keeps and reuses for every batch
+    C.append(("vasicek", dict(kappa=2.0, theta=0.03, sigma=0.05, r0=0.1, dt=0.02, T=26, tensor_args=True)))
+    C.append(("cir", dict(kappa=1.0, theta=0.04, sigma=0.3, v0=0.09, dt=1 / 52, T=27, tensor_args=True)))
     C.append(("cir", dict(kappa=1.5, theta=0.05, sigma=0.3, v0=0.05, dt=1 / 52, T=27, default_init=True)))
     C.append(("vasicek", dict(kappa=1.5, theta=0.05, sigma=0.03, r0=0.05, dt=1 / 52, T=27, default_init=True)))
     C.append(("heston", dict(kappa=1.5, theta=0.05, sigma=0.3, rho=-0.6, v0=0.05, s0=1.0, dt=1 / 250, T=21, default_init=True)))
@@ -201,7 +204,8 @@ def cfg_list():
         C.append(("heston", dict(kappa=kappa, theta=theta, sigma=sigma, rho=rho, v0=v0, s0=s0, dt=dt, T=T)))
     for alpha, rho, eta, xi, dt, T in [(-0.4, -0.9, 1.9, 0.04, 1 / 50, 51), (-0.3, -0.5, 1.0, 0.09, 1 / 25, 26), (-0.4, -0.9, 1.9, 0.04, 1 / 250, 21), (-0.2, 0.0, 0.8, 0.05, 1 / 25, 51)]:
         C.append(("rbergomi", dict(alpha=alpha, rho=rho, eta=eta, xi=xi, dt=dt, T=T)))
-    for kind, dt, T, s0 in [("const", 1 / 52, 27, 1.3), ("smile", 1 / 250, 31, 1.0), ("time", 1 / 12, 13, 0.6)]:
+    # incl. a regime where the Euler step 1 + sigma sqrt(dt) z goes negative with non-negligible probability (the martingale property still holds)
+    for kind, dt, T, s0 in [("const", 1 / 52, 27, 1.3), ("smile", 1 / 250, 31, 1.0), ("time", 1 / 12, 13, 0.6), ("big", 1 / 12, 7, 1.0)]:
         C.append(("localvol", dict(kind=kind, dt=dt, T=T, s0=s0)))
     return C
 
@@ -212,6 +216,8 @@ CONFIGS = cfg_list()
 def lv_fn(kind):
     if kind == "const":
         return lambda t, s: torch.full_like(s, 0.3)
+    if kind == "big":
+        return lambda t, s: torch.full_like(s, 2.0)
     if kind == "smile":
         return lambda t, s: 0.2 + 0.3 * (s - 1.0).abs().clamp(max=1.0)
     return lambda t, s: 0.15 + 0.2 * t + 0.0 * s
@@ -261,8 +267,13 @@ def build(model, c, via, dtype):
         x0 = c["v0"] if model == "cir" else c["r0"]
         gen = ST.generate_cir if model == "cir" else ST.generate_vasicek
         ini = None if c.get("default_init") else (x0,)  # default start: the documented initial state theta
+        th_arg = th
+        if c.get("tensor_args"):
+            tdt = dtype or torch.get_default_dtype()
+            ini = (torch.tensor(x0, dtype=tdt),)
+            th_arg = torch.tensor(th, dtype=tdt)
         if via == "generator":
-            draw = lambda b: {"x": gen(b, T, init_state=ini, kappa=ka, theta=th, sigma=sg, dt=dt, dtype=dtype)}  # noqa: E731
+            draw = lambda b: {"x": gen(b, T, init_state=ini, kappa=ka, theta=th_arg, sigma=sg, dt=dt, dtype=dtype)}  # noqa: E731
         else:
             inst = (CIRRate if model == "cir" else VasicekRate)(kappa=ka, theta=th, sigma=sg, dt=dt, dtype=dtype)
             draw = lambda b: (inst.simulate(b, (T - 1) * dt, init_state=ini), {"x": inst.spot})[1]  # noqa: E731
@@ -354,7 +365,7 @@ def drv_law(ctx, k, rng):
     # call history must not matter: the same generator is first called with perturbed arguments (same shape) in this process, so that
     # anything cached across calls under an incomplete key (e.g. without dt) would be stale for the judged configuration
     for key, fac in (("dt", 2.0), ("dt", 0.5), ("sigma", 1.5), ("kappa", 2.0), ("theta", 1.5), ("eta", 0.5), ("xi", 2.0), ("lam", 0.5)):
-        if key in c and isinstance(c[key], float) and c[key] > 0 and not c.get("default_init"):
+        if key in c and isinstance(c[key], float) and c[key] > 0 and not c.get("default_init") and not c.get("tensor_args"):
             c2 = dict(c)
             c2[key] = c[key] * fac
             try:
